@@ -38,6 +38,7 @@ func c16SessionStage(c *vh.Ctx) {
 			cb.Table[cc.Code] = e
 			cb.Entries = append(cb.Entries, e)
 		}
+		cb.Entries = c16LateRows(r, b, cb.Table, cb.Entries)
 		cp := proj.Gen(r, fmt.Sprintf("c%d", k), proj.Opt{Years: 2, MaxLayers: 8})
 		cc := c16Prepare(r, cp, swBits, format)
 		ps := []sessProject{
